@@ -154,7 +154,9 @@ fn lib_footer() {
     report(r);
 }
 
-/// per-file reader on a real uncompressed, unencrypted archive with interleaved files
+/// per-file reader: (1) a real archive with interleaved files read with several buffer sizes;
+/// (2) the solver's scenario — reader state and the next two block headers as drawn — rebuilt over
+/// handcrafted block bytes parsed by the REAL `ArchiveFileBlock::from`
 #[test]
 fn lib_b2f() {
     let r = catch_unwind(|| -> Option<String> {
@@ -191,6 +193,43 @@ fn lib_b2f() {
                 }
             }
         }
+        // ---- (2) the solver's scenario
+        let my = v_u64("my", 1);
+        let nruns = (v_u64("nruns", 1) as usize).clamp(1, 3);
+        let cur = (v_u64("cur", 0) as usize).min(nruns - 1);
+        let blen = (v_u64("blen", 4) as usize).min(8);
+        let mut stream: Vec<u8> = Vec::new();
+        let mut starts = Vec::new();
+        for i in 0..2 {
+            starts.push(stream.len() as u64);
+            let (k, id, len) = (v_u64(&format!("k{i}"), 4), v_u64(&format!("id{i}"), 0), v_u64(&format!("len{i}"), 0));
+            match k {
+                1 => {
+                    stream.push(0x01);
+                    stream.extend_from_slice(&id.to_le_bytes());
+                    stream.extend_from_slice(&len.to_le_bytes());
+                    stream.extend_from_slice(&[9u8; 16][..(len.min(16)) as usize]);
+                }
+                2 => {
+                    stream.push(0xFF);
+                    stream.extend_from_slice(&id.to_le_bytes());
+                    stream.extend_from_slice(&[0u8; 32]);
+                }
+                3 => stream.push(0xFE),
+                _ => stream.push(0x77),
+            }
+        }
+        // every run offset points at the second block (where a run change must continue)
+        let offs = vec![starts[1]; nruns];
+        let mut src = Cursor::new(stream);
+        let state = match v_u64("st", 1) % 3 {
+            0 => BlocksToFileReaderState::InFile((v_u64("rem", 1).max(1)).min(1 << 20) as usize),
+            1 => BlocksToFileReaderState::Ready,
+            _ => BlocksToFileReaderState::Finish,
+        };
+        let mut rd = BlocksToFileReader { src: &mut src, state, id: my, current_offset: cur, offsets: &offs[..] };
+        let mut buf = [0u8; 8];
+        let _ = rd.read(&mut buf[..blen]); // any result but a panic is acceptable here
         None
     });
     report(r);
@@ -231,6 +270,43 @@ fn lib_hash() {
         }
         if h.finalize().as_slice() != Sha256::digest(&data).as_slice() {
             return Some("hash accumulated while copying through a 1-byte source differs from SHA-256 of the bytes returned".to_string());
+        }
+        None
+    });
+    report(r);
+}
+
+#[test]
+fn lib_writer_refused() {
+    let r = catch_unwind(|| -> Option<String> {
+        let mut cfg = crate::config::ArchiveWriterConfig::new();
+        cfg.set_layers(Layers::EMPTY);
+        let mut w = ArchiveWriter::from_config(Vec::new(), cfg).unwrap();
+        let id = w.start_file("a").unwrap();
+        w.append_file_content(id, 2, &b"xy"[..]).unwrap();
+        if w.finalize().is_ok() {
+            return Some("finalize accepted while a file is open".to_string());
+        }
+        // the sequence must be able to continue
+        if let Err(e) = w.append_file_content(id, 1, &b"z"[..]) {
+            return Some(format!("append after a refused finalize: {e:?}"));
+        }
+        if let Err(e) = w.end_file(id) {
+            return Some(format!("end_file after a refused finalize: {e:?}"));
+        }
+        if let Err(e) = w.finalize() {
+            return Some(format!("finalize after closing the file: {e:?}"));
+        }
+        if w.append_file_content(id, 1, &b"z"[..]).is_ok() || w.start_file("b").is_ok() || w.finalize().is_ok() {
+            return Some("a call after finalization was accepted".to_string());
+        }
+        let bytes = w.into_raw();
+        let mut rd = ArchiveReader::new(Cursor::new(bytes)).ok()?;
+        let mut f = rd.get_file("a".to_string()).ok()??;
+        let mut c = Vec::new();
+        f.data.read_to_end(&mut c).ok()?;
+        if c != b"xyz" {
+            return Some("archive built around a refused finalize does not read back".to_string());
         }
         None
     });
